@@ -1205,8 +1205,93 @@ def install(ip):
         iscoroutinefunction=Builtin("iscoroutinefunction", lambda ip, a, k: isinstance(a[0], (FuncVal, BoundMethod)) and isinstance((a[0].func if isinstance(a[0], BoundMethod) else a[0]).node, ast.AsyncFunctionDef)))
     mod("inspect", iscoroutinefunction=ip.ext_modules["asyncio"].attrs["iscoroutinefunction"], signature=Opaque("inspect.signature"))
 
+    # -- reflection used by lazy_payload (C20) ------------------------------------------------------------------
+    from .values import CodeVal, SuperProxy
+
+    B["super"] = BuiltinClass("super")
+    B["SyntaxError"] = ip.exc_classes.setdefault("SyntaxError", BuiltinClass("SyntaxError", (ip.exc_classes["Exception"],)))
+    ip.exc_classes["SyntaxError"].is_exception = True
+
+    def _compile(ip, a, k):
+        if not isinstance(a[0], str):
+            raise Unsupported("compile of symbolic text")
+        return CodeVal(a[0])
+    B["compile"] = Builtin("compile", _compile)
+    B["exec"] = Builtin("exec", lambda ip, a, k: ip.exec_code(a[0], a[1] if len(a) > 1 else None, a[2] if len(a) > 2 else a[1]))
+
+    def _locals(ip, a, k):
+        fr = ip.frames[-1]
+        return PDict({kk: vv for kk, vv in fr.locals.items() if not kk.startswith("__")})
+    B["locals"] = Builtin("locals", _locals)
+
+    class _Empty:
+        def __deepcopy__(self, memo):
+            return self
+    EMPTY = _Empty()
+
+    class ParamVal:
+        def __init__(self, default):
+            self.default = default
+
+        def __deepcopy__(self, memo):
+            return self
+
+    class SigVal:
+        def __init__(self, params):
+            self.parameters = params
+
+        def __deepcopy__(self, memo):
+            return self
+    ip.attr_handlers_late = {ParamVal: lambda ip, o, n: o.default if n == "default" else (_ for _ in ()).throw(Unsupported("Parameter." + n)),
+                             SigVal: lambda ip, o, n: o.parameters if n == "parameters" else (_ for _ in ()).throw(Unsupported("Signature." + n))}
+
+    def _unwrap_func(v):
+        if isinstance(v, BoundMethod):
+            return v.func, True
+        return v, False
+
+    def _signature(ip, a, k):
+        f, bound = _unwrap_func(a[0])
+        if not isinstance(f, FuncVal):
+            raise Unsupported("inspect.signature of non-function")
+        args = f.node.args
+        names = [p.arg for p in args.posonlyargs + args.args]
+        defaults = [EMPTY] * (len(names) - len(args.defaults)) + [ip._eval_default(f, d) for d in args.defaults]
+        d = PDict({})
+        for n, dv in list(zip(names, defaults))[1 if bound else 0:]:
+            d.items[n] = ParamVal(dv)
+        if args.vararg:
+            d.items[args.vararg.arg] = ParamVal(EMPTY)
+        for p, dv in zip(args.kwonlyargs, args.kw_defaults):
+            d.items[p.arg] = ParamVal(EMPTY if dv is None else ip._eval_default(f, dv))
+        if args.kwarg:
+            d.items[args.kwarg.arg] = ParamVal(EMPTY)
+        return SigVal(d)
+
+    def _getfullargspec(ip, a, k):
+        f, bound = _unwrap_func(a[0])
+        if not isinstance(f, FuncVal):
+            raise Unsupported("getfullargspec of non-function")
+        names = [p.arg for p in f.node.args.posonlyargs + f.node.args.args]
+        o = PObj(B["object"], {"args": PList(names)})
+        return o
+    param_cls = BuiltinClass("Parameter")
+    ip.methods[("class:Parameter", "empty")] = None
+    ip.ext_modules["inspect"] = ModuleVal("inspect", {
+        "ismethod": Builtin("ismethod", lambda ip, a, k: isinstance(a[0], BoundMethod) and isinstance(a[0].func, FuncVal)),
+        "isfunction": Builtin("isfunction", lambda ip, a, k: isinstance(a[0], FuncVal)),
+        "signature": Builtin("signature", _signature),
+        "getfullargspec": Builtin("getfullargspec", _getfullargspec),
+        "Parameter": ModuleVal("inspect.Parameter", {"empty": EMPTY}),
+        "iscoroutinefunction": ip.ext_modules["asyncio"].attrs["iscoroutinefunction"],
+    })
+    ip.ext_modules["types"] = ModuleVal("types", {
+        "MethodType": Builtin("MethodType", lambda ip, a, k: BoundMethod(a[1], a[0])),
+        "CodeType": BuiltinClass("CodeType"), "ModuleType": BuiltinClass("ModuleType")})
+
     from . import prims_methods
     prims_methods.install(ip)
+    ip.attr_handlers.update(ip.attr_handlers_late)
 
 
 class ArrayVal:
